@@ -134,6 +134,10 @@ def gen_case(seed):
             t['steps'].append({'name': 'tally' + sfx, 'out': 't', 'offset': r.rint(1, 5),
                                'where': r.pick(['steps', 'steps', 'processes']),
                                'flow': r.pick([None, None, []])})
+            if r.chance(12):
+                t['procs'] = []      # a compartment that holds steps only
+        if t['procs'] and r.chance(20):
+            t['nest'] = True         # processes in a sub-compartment of the cell
         templates[tname] = t
     init_cells = {'agents': [], 'pool': []}
     for i in range(r.rint(1, 3)):
@@ -169,7 +173,7 @@ def gen_case(seed):
         if swarm['combo']:
             menu += [['add_del', _state_for(rr, cellvars), rr.below(4)]]
         if swarm['illegal']:
-            menu += [['add_existing', rr.below(4)]]
+            menu += [['add_existing', rr.below(4)], ['add_twice', _state_for(rr, cellvars)]]
         menu += [['write', rr.below(4), 'n', rr.rint(1, 9)]]
         if swarm['combo'] and swarm['add']:
             menu += [['add_write', _state_for(rr, cellvars), rr.below(4), rr.rint(1, 9)]]
@@ -440,12 +444,28 @@ class Cell:
 
 
 def parties_of(template):
+    """Parties of a cell, keyed by their path below the cell."""
     out = {}
     for sp in template.get('procs', []):
-        out[sp['name']] = {'kind': 'proc'}
+        key = ('sub', sp['name']) if template.get('nest') else (sp['name'],)
+        out[key] = {'kind': 'proc'}
     for sp in template.get('steps', []):
-        out[sp['name']] = {'kind': 'step', 'flow': sp.get('flow'), 'where': sp.get('where', 'steps')}
+        out[(sp['name'],)] = {'kind': 'step', 'flow': sp.get('flow'), 'where': sp.get('where', 'steps')}
     return out
+
+
+def _names(tree, path=()):
+    """Paths of the process markers in a (real or model) cell node."""
+    out = []
+    if isinstance(tree, dict):
+        for k, v in tree.items():
+            if k == 'vars' and not path:
+                continue
+            if isinstance(v, dict):
+                out += _names(v, path + (k,))
+            else:
+                out.append(path + (k,))
+    return sorted(out)
 
 
 def _dec(v):
@@ -488,7 +508,7 @@ class HModel:
         for s in STORES:
             for key, cell in self.stores[s].items():
                 for name, p in cell.parties.items():
-                    out[(s, key, name)] = p
+                    out[(s, key) + tuple(name)] = p
         for a in self.case['actors']:
             out[(a['name'],)] = {'kind': a['kind'], 'flow': a.get('flow')}
         for v in self.case.get('viewers', []):
@@ -607,14 +627,23 @@ class HModel:
     def template_of(self, g):
         """Which template a generated/explicit compartment was built from:
         recognised by the names and kinds of its parties."""
-        names = sorted(list((g.get('processes') or {}).keys()) + list((g.get('steps') or {}).keys()))
+        def flat(d):
+            out = []
+            for k, v in (d or {}).items():
+                if isinstance(v, dict):
+                    out += flat(v)
+                else:
+                    out.append(k)
+            return out
+        names = sorted(flat(g.get('processes')) + flat(g.get('steps')))
         for tname, t in self.case['templates'].items():
             tn = sorted([p['name'] for p in t.get('procs', [])] + [s['name'] for s in t.get('steps', [])])
             if tn == names:
-                pin = sorted(k for k in (g.get('processes') or {}))
+                pin = sorted(flat(g.get('processes')))
                 tin = sorted([p['name'] for p in t.get('procs', [])] +
                              [s['name'] for s in t.get('steps', []) if s.get('where') == 'processes'])
-                if pin == tin and self._flow_matches(g, t):
+                if pin == tin and self._flow_matches(g, t) and \
+                        bool(t.get('nest')) == ('sub' in (g.get('processes') or {})):
                     return tname
         raise HarnessError('unknown compartment content %r' % (names,))
 
@@ -633,7 +662,10 @@ class HModel:
             for key, cell in self.stores[s].items():
                 node = {'vars': dict(cell.vars)}
                 for name in cell.parties:
-                    node[name] = ('<P>', name)
+                    d = node
+                    for seg in name[:-1]:
+                        d = d.setdefault(seg, {})
+                    d[name[-1]] = ('<P>', name[-1])
                 out[s][key] = node
         return out
 
@@ -875,8 +907,8 @@ def check(case, run, stats=None):
                 if extra_vars:
                     return V('C09', 'C09.cell-shape', 'extra-variable',
                              '%s/%s has undeclared variables %r' % (s, key, sorted(extra_vars)), seq)
-                rp = sorted(k for k, v in rnode.items() if k != 'vars')
-                mp = sorted(k for k in mnode if k != 'vars')
+                rp = _names(rnode)
+                mp = _names(mnode)
                 if rp != mp:
                     return V('C09', 'C09.cell-parties', 'plain',
                              '%s/%s holds parties %r, expected %r' % (s, key, rp, mp), seq)
@@ -1145,9 +1177,12 @@ def check(case, run, stats=None):
             if ev.get('exc'):
                 for nu in pending_nu.values():
                     if nu['uid'].split('#')[0] in actor_names:
+                        seen_keys = set()
                         for added in ((nu['update'].get('agents') or {}).get('_add') or []):
-                            if added['key'] in m.stores['agents'] and 'cannot add' in ev['exc']:
+                            if (added['key'] in m.stores['agents'] or added['key'] in seen_keys) \
+                                    and 'cannot add' in ev['exc']:
                                 expect_exception = nu['seq']
+                            seen_keys.add(added['key'])
                 if expect_exception is not None:
                     probe('illegal-add-rejected')
                     return []
